@@ -7,7 +7,7 @@ Translated:
   * enumerations.py: the values of `Kind` and `ParameterKind`;
   * models.py: keyword parameters of `Docstring.__init__` and `Decorator.__init__` with required-ness;
   * encoders.py: the keys of `_loader_map` (must be exactly the five Kind members) and the dispatch order of
-    `json_decoder` ("cls" test before "kind" test).
+    `json_decoder` (`isinstance(obj_dict.get("cls"), str)` before `isinstance(obj_dict.get("kind"), str)`).
 """
 from __future__ import annotations
 
@@ -131,12 +131,17 @@ def _decoder_shape(tree: ast.Module, kinds) -> None:
     for s in fn[0].body:
         if isinstance(s, ast.If):
             t = s.test
-            if not (isinstance(t, ast.Compare) and len(t.ops) == 1 and isinstance(t.ops[0], ast.In) and isinstance(t.left, ast.Constant)
-                    and isinstance(t.comparators[0], ast.Name) and t.comparators[0].id == "obj_dict"):
+            # isinstance(obj_dict.get("<key>"), str)
+            ok = (isinstance(t, ast.Call) and isinstance(t.func, ast.Name) and t.func.id == "isinstance" and len(t.args) == 2
+                  and isinstance(t.args[1], ast.Name) and t.args[1].id == "str"
+                  and isinstance(t.args[0], ast.Call) and isinstance(t.args[0].func, ast.Attribute) and t.args[0].func.attr == "get"
+                  and isinstance(t.args[0].func.value, ast.Name) and t.args[0].func.value.id == "obj_dict"
+                  and len(t.args[0].args) == 1 and isinstance(t.args[0].args[0], ast.Constant))
+            if not ok:
                 raise TranslatorError(f"json_decoder test outside the whitelist: {ast.unparse(t)}")
-            tests.append(t.left.value)
+            tests.append(t.args[0].args[0].value)
     if tests != ["cls", "kind"]:
-        raise TranslatorError(f"json_decoder dispatches on {tests}, the model assumes ['cls', 'kind']")
+        raise TranslatorError(f"json_decoder dispatches on {tests}, the model assumes ['cls', 'kind'] (both required to be str)")
 
 
 def translate(ctx=None) -> Path:
